@@ -992,6 +992,9 @@ func gen(o *tr.Opts, w *tr.W) {
 
 	// 5. the zero-size element type
 	genU(o, w, r)
+
+	// 6. the scale stream: buffers of hundreds to thousands of slots (B lines, see big.go)
+	genScale(o, w, r)
 }
 
 const rule = "Histories of Add/Push/Pop/PopLast/Clear/Peek(any int) on queue.Queue[int] from the zero value, New() and NewSize(0..9, some 10..40; negative sizes down to math.MinInt): " +
@@ -1012,6 +1015,10 @@ func main() {
 		for _, in := range tr.ReplayInputs(o.Replay) {
 			if f := strings.Fields(in); len(f) >= 2 && f[0] == "U" {
 				replayU(f).emit(w, "replayed")
+				continue
+			}
+			if f := strings.Fields(in); len(f) >= 2 && f[0] == "B" {
+				replayB(f).emit(w, "replayed")
 				continue
 			}
 			replay(in).emit(w, "replayed")
